@@ -93,6 +93,9 @@ func NewMemoryCache[MetadataT any](cfg *config.Config, memoryBudgetPercent int, 
 		removeEntry: func(key CacheKey) error {
 			return c.deleteInternal(key)
 		},
+		getLimit: func() int64 {
+			return min(c.maxCacheSize.Get(), c.memoryCap.Get())
+		},
 		getCacheSize: func() int64 {
 			return c.byteSize.Get()
 		},
